@@ -31,6 +31,39 @@ SENTENCES = {
     "field_view_at": ("field_view.hpp", r"\bat", None, "field_view::at (variadic form: builds the coordinate vector and delegates)"),
 }
 
+# C17: what every layer hands back as its configuration, and what its parameter-pack constructor stores (Covfie.Config.construct / getConfig)
+_OWN = r"struct\s+owning_data_t\s*\{"
+_LAYER_FILES = {
+    "array": "backend/primitive/array.hpp", "constant": "backend/primitive/constant.hpp", "identity": "backend/primitive/identity.hpp",
+    "strided": "backend/transformer/strided.hpp", "morton": "backend/transformer/morton.hpp", "hilbert": "backend/transformer/hilbert.hpp",
+    "clamp": "backend/transformer/clamp.hpp", "backup": "backend/transformer/backup.hpp", "affine": "backend/transformer/affine.hpp",
+    "linear": "backend/transformer/linear.hpp", "nearest_neighbour": "backend/transformer/nearest_neighbour.hpp",
+    "shuffle": "backend/transformer/shuffle.hpp", "covariant_cast": "backend/transformer/covariant_cast.hpp",
+    "dereference": "backend/transformer/dereference.hpp",
+}
+for _l, _f in _LAYER_FILES.items():
+    SENTENCES["cfg_" + _l] = (_f, r"configuration_t\s+get_configuration", _OWN, "Covfie.Config.getConfig (the layer's own configuration, as stored)")
+    if _l != "identity":      # identity has no configuration to construct from
+        SENTENCES["packctor_" + _l] = (_f, "PACKCTOR", _OWN, "Covfie.Config.construct (head of the pack is this layer's configuration, the rest goes to the layer below)")
+CFG_KEYS = tuple(k for k in SENTENCES if k.startswith(("cfg_", "packctor_")))
+
+
+def _pack_ctor(text, anchor):
+    """the constructor from `parameter_pack<configuration_t[, Args...]> &&`: parameter, member initialisers and body"""
+    m = re.search(anchor, text)
+    if not m:
+        raise Untranslatable("owning_data_t not found")
+    t = text[m.end():]
+    m = re.search(r"owning_data_t\s*\(\s*(parameter_pack\s*<\s*configuration_t\s*(?:,\s*Args\s*\.\.\.\s*)?>\s*&&\s*\w+)\s*\)", t)
+    if not m:
+        raise Untranslatable("no constructor from parameter_pack<configuration_t, ...> &&")
+    k = t.index("{", m.end())
+    d, e = 1, k + 1
+    while d:
+        d += {"{": 1, "}": -1}.get(t[e], 0)
+        e += 1
+    return m.group(1), t[m.end():e]
+
 
 def norm(s):
     return re.sub(r"\s+", " ", s).strip()
@@ -43,7 +76,7 @@ def translate(repo, key):
     except OSError as e:
         raise Untranslatable(str(e))
     try:
-        ptxt, body = find_function(text, fn, after=anchor)
+        ptxt, body = _pack_ctor(text, anchor) if fn == "PACKCTOR" else find_function(text, fn, after=anchor)
     except Untranslatable:
         raise
     except (IndexError, ValueError) as e:
